@@ -153,6 +153,16 @@ func checkC11(r *Run) {
 				if len(e.Errors) == 0 && e.Path != "" {
 					got, _ = filepath.EvalSymlinks(e.Path)
 				}
+				if got == n.Real && len(t.Symlinks) > 0 && !strings.HasPrefix(q.Importer, "/app/node_modules/linked") && !strings.HasPrefix(q.Importer, "/app/node_modules/@lnk") {
+					// symlinks are not preserved (the default), so the path esbuild reports must itself be the real path: a
+					// half-resolved path names the same file but is a different module identity and a different starting
+					// point for the imports of that file
+					if rp, err := filepath.EvalSymlinks(filepath.Dir(e.Path)); err == nil && filepath.Join(rp, filepath.Base(e.Path)) != e.Path && filepath.Join(rp, filepath.Base(e.Path)) == n.Real {
+						grel, _ := filepath.Rel(realDir, e.Path)
+						rel, _ := filepath.Rel(realDir, n.Real)
+						r.Violation(c11Sig("resolve:path-not-real", tagSig, q), fmt.Sprintf("%s(%q) from %s: esbuild reports the path %s, which reaches the file Node resolves to (%s) only through a symlink", q.Kind, q.Spec, q.Importer, grel, rel), rep)
+					}
+				}
 				if got != n.Real {
 					rel, _ := filepath.Rel(realDir, n.Real)
 					grel := "(failed: " + firstErr(e.Errors) + ")"
